@@ -4,8 +4,10 @@ package c11
 import (
 	"encoding/json"
 	"fmt"
+	am "github.com/pancsta/asyncmachine-go/pkg/machine"
 	"os"
 	"strings"
+	"sync"
 	"testing"
 
 	"pgregory.net/rapid"
@@ -33,10 +35,24 @@ func TestMain(m *testing.M) {
 type Case = rec.Case
 
 // fingerprint executes the case once and renders everything observable.
-func fingerprint(c Case) (string, bool, error) {
+func fingerprint(c Case, shared am.Schema) (string, bool, error) {
 	var b strings.Builder
 	interesting := false
+	var logMu sync.Mutex
+	var rejects []string
 	run, err := rec.Exec(c, rec.ExecOpts{
+		AmSchema: shared,
+		Prepare: func(r *rec.Run) {
+			// the relation resolver's decision log is observable too
+			r.M.SemLogger().SetLogger(func(_ am.LogLevel, msg string, args ...any) {
+				if strings.HasPrefix(msg, "[reject") {
+					logMu.Lock()
+					rejects = append(rejects, fmt.Sprintf(msg, args...))
+					logMu.Unlock()
+				}
+			})
+			r.M.SemLogger().SetLevel(am.LogDecisions)
+		},
 		PerStep: func(r *rec.Run, out *rec.StepOut) error {
 			fmt.Fprintf(&b, "%s=%v@%v|", out.Step, out.Res, out.TimeAfter)
 			for _, tx := range out.Txs {
@@ -53,19 +69,28 @@ func fingerprint(c Case) (string, bool, error) {
 		},
 	})
 	if run != nil {
-		fmt.Fprintf(&b, "names=%v final=%s", run.M.StateNames(), run.M.StringAll())
+		fmt.Fprintf(&b, "names=%v final=%s\n", run.M.StateNames(), run.M.StringAll())
+		for _, n := range run.M.StateNames() {
+			in, _ := run.M.Resolver().InboundRelationsOf(n)
+			fmt.Fprintf(&b, "inbound(%s)=%v ", n, in)
+		}
+		logMu.Lock()
+		fmt.Fprintf(&b, "\nrejects=%v", rejects)
+		logMu.Unlock()
 		run.Close()
 	}
 	return b.String(), interesting, err
 }
 
 func runCase(c Case, reps int, st *ev.Stats) error {
-	first, interesting, err := fingerprint(c)
+	// one schema value for all the machines of the case, like a package-level schema var
+	shared := c.Schema.Am()
+	first, interesting, err := fingerprint(c, shared)
 	if err != nil {
 		return err
 	}
 	for i := 1; i < reps; i++ {
-		fp, _, err := fingerprint(c)
+		fp, _, err := fingerprint(c, shared)
 		if err != nil {
 			return err
 		}
